@@ -1237,6 +1237,7 @@ func main() {
 	for i := 0; i < nBig; i++ {
 		runStore(w, genBigStore(rs.U64(), rs.Range(4090, 4100)+4096*rs.Intn(2)))
 	}
+	runGen(w, rng.New(*seed^0x47454E14), thorough)
 	if err := w.Close(); err != nil {
 		panic(err)
 	}
